@@ -85,9 +85,51 @@ def device_scripts(rng, n):
     return out
 
 
+def lcd_scripts(rng, n):
+    """LCD text / glyph / progress scripts (emitter-side counters: glyph arrays, animation states)."""
+    out = []
+    for k in range(n):
+        L = [HDR, "lcd = LCD(rs=12, en=11, d4=5, d5=4, d6=3, d7=2, backlight_pin=9)"]
+        if rng.random() < 0.5:
+            L.append("panel = LCD(i2c_addr=39, cols=20, rows=4)")
+        for _ in range(rng.randint(1, 4)):
+            L.append(f"lcd.glyph({rng.randint(0, 7)}, {[rng.randint(0, 31) for _ in range(8)]})")
+            if "panel" in L[-2 if len(L) > 2 else 0] or rng.random() < 0.3 and any("panel" in x for x in L):
+                L.append(f"panel.glyph({rng.randint(0, 7)}, {[rng.randint(0, 31) for _ in range(8)]})")
+        L.append("lcd.line(0, \"glyphs\")")
+        L.append(f"lcd.progress(1, {rng.randint(0, 100)}, label=\"L\")")
+        L.append("while True:")
+        L.append(f"    lcd.glyph(1, {[rng.randint(0, 31) for _ in range(8)]})")
+        L.append("    sleep(20)")
+        out.append("\n".join(L) + "\n")
+    return out
+
+
+STRING_LINES = ['mon.write("dir C:\\\\")', 'mon.write("a # not a comment")', "mon.write('single # quoted')", 'mon.write("quote \\" inside # x")',
+                'lcd_text = "tail\\\\"', 'mon.write("50% # done")', 'mon.write("x")  # real comment', 'mon.write("back\\\\slash # mid")']
+
+
+def string_scripts(rng, n):
+    """Device calls whose string arguments contain '#', quotes and trailing backslashes (comment stripping)."""
+    out = []
+    for k in range(n):
+        L = [HDR, "led = Led(13)"]
+        lines = rng.sample(STRING_LINES, rng.randint(2, 5))
+        L += lines[:2]
+        L.append("while True:")
+        for x in lines[2:] or lines[:1]:
+            L.append("    " + x)
+        L.append("    led.toggle()")
+        L.append("    sleep(10)")
+        out.append("\n".join(L) + "\n")
+    return out
+
+
 def mixed(seed_parts, n_prog=30, n_promo=20, n_dev=10):
     rng = rng_for(*seed_parts, "corpus")
     scripts = [prog.generate((*seed_parts, "corpus", i), "clean")["source"] for i in range(n_prog)]
     scripts += promotion_scripts(rng, n_promo)
     scripts += device_scripts(rng, n_dev)
+    scripts += lcd_scripts(rng, max(3, n_dev // 2))
+    scripts += string_scripts(rng, max(3, n_dev // 2))
     return scripts
